@@ -153,6 +153,18 @@ def _body_direct(rep, case):
         return
     cls = {"state1": messages.SwitcherStateResponse, "shutter": messages.SwitcherShutterStateResponse,
            "thermostat": messages.SwitcherThermostatStateResponse}[kind]
+    if kind == "state1" and case["salt"] % 2 == 0:
+        # the same process listed schedules a moment ago whose durations equal this reply's time fields (a client polls both):
+        # how a schedule's duration was rendered is none of a state reply's business
+        recs = []
+        for i, name in enumerate(("auto_shutdown", "time_left", "time_on")):
+            dur = f[name] // 60 * 60
+            recs.append((i, True, 0x02, 1, 1_700_000_000, 1_700_000_000 + dur, bytes(4)))
+        try:
+            messages.SwitcherGetSchedulesResponse(replies.schedules(recs))
+            rep.label("after-listing-schedules-of-equal-durations")
+        except Exception:
+            pass
     resp = cls(encode(kind, f, case["salt"]))
     judge(kind, f, case, resp, f"C08/{kind}")
 
